@@ -128,6 +128,8 @@ def _exhaust(ctx, max_out, files=BASE_FILES, variants=('plain', 'dot', 'updown')
         if not lg.valid(g):
             continue
         chunk.append(g)
+        if not ctx.samples:
+            ctx.sample({'graph': g, 'files': lg.render(g)})
         if len(chunk) >= 400:
             run_graphs(ctx, chunk)
             chunk = []
